@@ -230,7 +230,7 @@ Definition fin_ok (sN : astate) (restN : list event) : Prop :=
       c_rep0 (a_coder sE) = 4294967295 /\ a_hist sE = rev data ++ hist0 /\ a_pend_len sE = 0
   else restN = [].
 
-(* the reader after k bytes, between two iterations.  [strict = false] also admits the state right
+(* the reader after k bytes, between two iterations.  [strict = false] also covers the state right
    after construction with a preset dictionary that fills the window completely (pos = buf_size):
    the first iteration then produces nothing and flush() wraps the position. *)
 Definition InvG (strict : bool) (k : nat) (s : lzma1) : Prop :=
